@@ -795,9 +795,28 @@ print(json.dumps(out))
 """
 
 
+def has_display_repeat(x):
+    """a tuple/list display multiplied by a non-literal operand: the compiler types the product as tuple/list, and an
+    operand object whose __rmul__/__mul__ returns something else makes the generated code read a non-sequence as one
+    (assertion / type confusion).  A real defect, but not a reference-counting one: such programs are left out."""
+    if isinstance(x, (tuple, list)):
+        if len(x) == 3 and x[0] == "op" and x[1] in ("*", "@") and isinstance(x[2], (list, tuple)) and \
+                any(isinstance(o, (tuple, list)) and o and o[0] == "seq" for o in x[2]):
+            return True
+        return any(has_display_repeat(y) for y in x)
+    return False
+
+
 def prefilter(ctx, progs):
     """compile every program on its own (one warmed-up compiler process): programs the compiler rejects or
     crashes on are outside this property (C43) and are dropped with a note"""
+    kept = []
+    for fn, body, core in progs:
+        if has_display_repeat(body):
+            ctx.strata["left_out_display_repeat"] = ctx.strata.get("left_out_display_repeat", 0) + 1
+        else:
+            kept.append((fn, body, core))
+    progs = kept
     r = cybuild.run_script(PREFILTER, os.path.join(ctx.workdir, "pre"),
                            stdin_obj=[[fn, func_source(fn, body)] for fn, body, _ in progs], name="c35_prefilter.py")
     if r["json"] is None:
